@@ -797,6 +797,14 @@ pub async fn run_async(plan: &PlanA, opts: &ExecOpts) -> RunResult {
                 }
 
                 // ---- C02: the address belongs to the documented set
+                if conf.policies.iter().any(|p| p.depth() >= 3) {
+                    res.probe("C02.nested_policy_tree");
+                }
+                if let Some(want) = s.msg.opt_ip(50) {
+                    if want != x && conf.policies.iter().any(|p| p.reserves(want)) {
+                        res.probe("C02.request_names_reserved_address");
+                    }
+                }
                 match &pool {
                     Some(p) if p.contains(&u32::from(x)) => (),
                     _ => {
